@@ -991,7 +991,7 @@ func genAutoLines(r *RNG, w *World) []AutoLine {
 		a.RainAct = round(r.FRange(0.1, 1), 1)
 		a.TAccu = r.PickI([]int{0, 80, 200, 380})
 		a.TBase = r.PickI([]int{0, 5})
-		a.IrrSt1 = r.Range(1, 4)
+		a.IrrSt1 = r.Range(0, 4) // 0: from sowing on (rows of catch crops in the shipped table)
 		a.IrrSt2 = r.Range(a.IrrSt1, 6)
 		a.NDem1, a.NDem2, a.NDem3 = r.PickI([]int{0, 60, 120}), r.PickI([]int{0, 60, 120}), r.PickI([]int{0, 40})
 		a.St1, a.St2, a.St3 = r.PickS([]string{"S0", "S2", "59", "0"}), r.PickS([]string{"S3", "0", "120"}), r.PickS([]string{"S4", "0"})
